@@ -460,6 +460,7 @@ fn judge_fault(
             // "an error raised by the underlying source or sink surfaces as an error": a raised error other than
             // an (retried) interruption must not end in Ok, even if the bytes happen to be complete
             let mode = if f.sticky { "sticky" } else { "once" };
+            let mode = if matches!(f.kind, FaultKind::UnexpectedEof) { format!("eof-kind-error/{mode}") } else { mode.to_string() };
             ctx.violation(
                 format!("C09/{comp}/fault-swallowed/identical-result/{mode}"),
                 format!(
@@ -477,6 +478,7 @@ fn judge_fault(
     let mode = if f.sticky { "sticky" } else { "once" };
     let sig = match f.kind {
         FaultKind::Interrupted => format!("C09/{comp}/interrupted/different-output/{mode}"),
+        FaultKind::UnexpectedEof => format!("C09/{comp}/fault-swallowed/eof-kind-error/{mode}"),
         _ => format!("C09/{comp}/fault-swallowed/{mode}"),
     };
     let c = if r0.err {
@@ -1319,7 +1321,7 @@ fn family_small(ctx: &mut Ctx) {
                     let Some((_, log)) = guarded(ctx, &format!("C09/{comp}/sched"), || json!({"text": hexs(&text)}), || runner(&sc, &Consume::Read(2), None)) else { continue };
                     let ncalls = log.lock().unwrap().calls;
                     for k in 0..ncalls {
-                        for (kind, sticky) in [(FaultKind::Other, false), (FaultKind::Other, true), (FaultKind::Interrupted, false)] {
+                        for (kind, sticky) in [(FaultKind::Other, false), (FaultKind::Other, true), (FaultKind::Interrupted, false), (FaultKind::UnexpectedEof, false)] {
                             let f = Fault { at_call: k, sticky, kind };
                             let replay = || json!({"family": "S1", "component": comp, "text": hexs(&text), "sched": sched_json(&sc), "fault_call": k, "sticky": sticky, "kind": kind_name(kind)});
                             let r = guarded(ctx, &fault_prefix(comp, kind), replay, || runner(&sc, &Consume::Read(2), Some(f)));
@@ -1530,7 +1532,7 @@ fn family_small(ctx: &mut Ctx) {
                             let Some((_, log)) = guarded(ctx, "C09/normalized-reader/sched", || json!({"s": hexs(&s)}), || run_normalized(&s, lb, &sc, &Consume::Read(100), None)) else { continue };
                             let ncalls = log.lock().unwrap().calls;
                             for k in 0..ncalls {
-                                for (kind, sticky) in [(FaultKind::Other, false), (FaultKind::Other, true), (FaultKind::Interrupted, false)] {
+                                for (kind, sticky) in [(FaultKind::Other, false), (FaultKind::Other, true), (FaultKind::Interrupted, false), (FaultKind::UnexpectedEof, false)] {
                                     let f = Fault { at_call: k, sticky, kind };
                                     let replay = || json!({"family": "S3e", "s": hexs(&s), "lb": lb_name(lb), "sched": sched_json(&sc), "fault_call": k, "sticky": sticky, "kind": kind_name(kind)});
                                     let r = guarded(ctx, &fault_prefix("normalized-reader", kind), replay, || run_normalized(&s, lb, &sc, &Consume::Read(100), Some(f)));
@@ -1577,7 +1579,7 @@ fn family_small(ctx: &mut Ctx) {
             let splits: Vec<usize> = (1..len).filter(|i| i % 3 == 0).collect();
             let Some((_, ncalls, _)) = guarded(ctx, "C09/line-writer/sched", || json!({"len": len}), || run_line_writer(&data, &splits, false, lb, &Sched::Fixed(2), None)) else { continue };
             for k in 0..ncalls {
-                for (kind, sticky) in [(FaultKind::Other, false), (FaultKind::Other, true), (FaultKind::Interrupted, false)] {
+                for (kind, sticky) in [(FaultKind::Other, false), (FaultKind::Other, true), (FaultKind::Interrupted, false), (FaultKind::UnexpectedEof, false)] {
                     let f = Fault { at_call: k, sticky, kind };
                     let replay = || json!({"family": "S4", "len": len, "lb": lb_name(lb), "fault_call": k, "sticky": sticky, "kind": kind_name(kind)});
                     let r = guarded(ctx, &fault_prefix("line-writer", kind), replay, || run_line_writer(&data, &splits, false, lb, &Sched::Fixed(2), Some(f)));
@@ -1933,7 +1935,7 @@ fn family_dearmor(ctx: &mut Ctx) {
             let ncalls = log.lock().unwrap().calls;
             ctx.cover(&("Df", name, sc.name()));
             for k in 0..ncalls {
-                for (kind, sticky) in [(FaultKind::Other, false), (FaultKind::Other, true), (FaultKind::Interrupted, false)] {
+                for (kind, sticky) in [(FaultKind::Other, false), (FaultKind::Other, true), (FaultKind::Interrupted, false), (FaultKind::UnexpectedEof, false)] {
                     let f = Fault { at_call: k, sticky, kind };
                     let replay = || json!({"family": "D", "armor": hexs(&text), "sched": sched_json(&sc), "fault_call": k, "sticky": sticky, "kind": kind_name(kind)});
                     let r = guarded(ctx, &fault_prefix("dearmor", kind), replay, || run_dearmor(&text, &sc, &Consume::Read(3), Some(f)));
@@ -2137,7 +2139,7 @@ fn diff_and_fault(
         let pts = fault_points(ncalls, &offsets, boundaries, &mut rng, fault_budget.0, fault_budget.1);
         ctx.tally(&format!("fault.points.{comp}"), pts.len() as u64);
         for k in pts {
-            for (kind, sticky) in [(FaultKind::Other, false), (FaultKind::Other, true), (FaultKind::Interrupted, false)] {
+            for (kind, sticky) in [(FaultKind::Other, false), (FaultKind::Other, true), (FaultKind::Interrupted, false), (FaultKind::UnexpectedEof, false)] {
                 let f = Fault { at_call: k, sticky, kind };
                 let replay = || {
                     let mut v = replay_base.clone();
@@ -3413,7 +3415,7 @@ fn family_messages(ctx: &mut Ctx, env: &MsgEnv) {
                 let pts = fault_points(ncalls, &offsets, &src_bounds, &mut rng, budget.0, budget.1);
                 ctx.tally("fault.points.builder-source", pts.len() as u64);
                 for k in pts {
-                    for (kind, sticky) in [(FaultKind::Other, false), (FaultKind::Other, true), (FaultKind::Interrupted, false)] {
+                    for (kind, sticky) in [(FaultKind::Other, false), (FaultKind::Other, true), (FaultKind::Interrupted, false), (FaultKind::UnexpectedEof, false)] {
                         let f = Fault { at_call: k, sticky, kind };
                         let replay = || {
                             let mut v = base.clone();
@@ -3450,7 +3452,7 @@ fn family_messages(ctx: &mut Ctx, env: &MsgEnv) {
                     pts.dedup();
                     ctx.tally(&format!("fault.points.{comp}"), pts.len() as u64);
                     for k in pts {
-                        for (kind, sticky) in [(FaultKind::Other, false), (FaultKind::Other, true), (FaultKind::Interrupted, false)] {
+                        for (kind, sticky) in [(FaultKind::Other, false), (FaultKind::Other, true), (FaultKind::Interrupted, false), (FaultKind::UnexpectedEof, false)] {
                             let f = Fault { at_call: k, sticky, kind };
                             let replay = || {
                                 let mut v = base.clone();
@@ -3498,7 +3500,7 @@ fn family_messages(ctx: &mut Ctx, env: &MsgEnv) {
                         ctx.sample(json!({"family": "F", "cfg": cfg.name, "payload_bytes": n, "armored": armored, "source": sc.name(), "consumer": c.name(), "clean_source_calls": ncalls, "fault_calls": pts, "kinds": ["other/once", "other/sticky", "interrupted/once"]}));
                     }
                     for k in pts {
-                        for (kind, sticky) in [(FaultKind::Other, false), (FaultKind::Other, true), (FaultKind::Interrupted, false)] {
+                        for (kind, sticky) in [(FaultKind::Other, false), (FaultKind::Other, true), (FaultKind::Interrupted, false), (FaultKind::UnexpectedEof, false)] {
                             let f = Fault { at_call: k, sticky, kind };
                             let replay = || json!({"family": "F", "cfg": cfg.name, "armored": armored, "wire": hexs(w), "source": sched_json(&sc), "consumer": c.name(), "source_fault": {"call": k, "sticky": sticky, "kind": kind_name(kind), "clean_calls": ncalls}});
                             let r = guarded(ctx, &fault_prefix(comp, kind), replay, || run_read_any(env, cfg, w, armored, &sc, c, Some(f)));
@@ -3612,7 +3614,7 @@ fn family_messages(ctx: &mut Ctx, env: &MsgEnv) {
                 judge(ctx, "armor-write", &w0, &got, &|| format!("armor::write of certificate {i} (crc={crc}), sink accepts {}", sk.name()), &replay);
             }
             for k in 0..l0.calls {
-                for (kind, sticky) in [(FaultKind::Other, false), (FaultKind::Other, true), (FaultKind::Interrupted, false)] {
+                for (kind, sticky) in [(FaultKind::Other, false), (FaultKind::Other, true), (FaultKind::Interrupted, false), (FaultKind::UnexpectedEof, false)] {
                     let f = Fault { at_call: k, sticky, kind };
                     let replay = || json!({"family": "F3", "key": i, "crc": crc, "sink_fault": {"call": k, "sticky": sticky, "kind": kind_name(kind), "clean_calls": l0.calls}});
                     let r = guarded(ctx, &fault_prefix("armor-write", kind), replay, || run(&Sched::All, Some(f)));
